@@ -35,6 +35,15 @@ CHECKS = {
  "C12": dict(cat="model_checking", tech="explicit-state BFS over sequential request histories, each executed on four engines; pairwise transcript comparison (differential oracle)",
    text="Every history up to the stated depth over a 15-operation alphabet is executed on memkv, badger, tikv-mock and metrics(badger); success flags, relative revisions, failure-branch values, reads at every revision and watch events must agree.",
    ref="4/C12"),
+ "C05": dict(cat="model_checking", tech="stateless model checking of the real code: preemption-bounded DFS with happens-before state cache over watcher / writers / sequencer / hub / filter goroutines; gap-free-prefix oracle against ground truth",
+   text="Every schedule up to the bound of one watcher (3 consumer speeds), 1-2 writers and the real background goroutines, over event-cache sizes incl. wrap-around, 0-4 pre-window events and 7 start revisions, with capacities shrunk so that overflow is reachable; the received sequence must be a gap-free, duplicate-free prefix of the ground-truth event list.",
+   ref="4/C05"),
+ "C06": dict(cat="model_checking", tech="stateless model checking of the real code: preemption-bounded DFS with state cache over list-then-watch reader vs writers vs compactor; reconstruction oracle",
+   text="Every schedule up to the bound of a reader (List at R, Watch from R+1), 1-2 writers and optionally a compactor; for every received event revision and the final committed revision, List at that revision must equal the first list with the events applied.",
+   ref="4/C06"),
+ "C13": dict(cat="model_checking", tech="explicit-state BFS over write histories x exhaustive enumeration of partition border subsets and orders injected under the real scanner; four read paths compared with the unpartitioned snapshot",
+   text="In every state of the history BFS every single border and every pair (thorough: triple) of borders from stored and well-formed internal keys, reported in every order, is installed; List, Count, whole-interval stream and the concatenation of per-advertised-partition streams at every revision are compared with the model; batch revisions and terminators are checked.",
+   ref="4/C13"),
 }
 
 NOT_YET = {}
